@@ -83,6 +83,22 @@ def run(ctx):
     # extra spellings for a bind attribute are additive; a documented column must never be *missing* from its attribute
     lost = {a: sorted(cols - inv.get(a, set())) for a, cols in want_inv.items() if cols - inv.get(a, set())}
     r1.check(not lost, "survey_header:bind targets", "every documented column spelling reaches its bind attribute", "pyxform/aliases.py", why_fail=f"missing {lost}")
+    # logic columns written in the legacy single-colon spelling (namespaced attribute after `bind:`), blanks allowed
+    ph_ = ctx.func("pyxform.parsing.sheet_headers:process_header", "C05.R1")
+    sh_ = ctx.consts.get("pyxform.aliases", "survey_header", "C05.R1")
+    cols_ = set(ctx.consts.get("pyxform.question", "SELECT_QUESTION_FIELDS", "C05.R1"))
+    for header_, dbl_, want_ in (("bind:jr:constraintMsg", False, ("bind", "jr:constraintMsg")), ("bind : jr:constraintMsg", False, ("bind", "jr:constraintMsg")),
+                                 ("bind: jr:requiredMsg", False, ("bind", "jr:requiredMsg")), ("bind:relevant", False, ("bind", "relevant")), ("bind : required", False, ("bind", "required")),
+                                 ("bind::jr:constraintMsg", True, ("bind", "jr:constraintMsg")), ("bind :: relevant", True, ("bind", "relevant")), ("Relevant", False, ("bind", "relevant")),
+                                 ("Constraint Message", False, ("bind", "jr:constraintMsg")), ("required_message : fr", False, ("bind", "jr:requiredMsg", "fr"))):
+        ith_ = ctx.interp("C05.R1")
+        ith_.reset([])
+        try:
+            got_ = ith_.call_function(ph_, [], {"header": header_, "use_double_colon": dbl_, "header_aliases": sh_, "header_columns": cols_}, None, ph_.node)
+            toks_ = got_[1] if isinstance(got_, tuple) and len(got_) == 2 else got_
+        except Raised as e:
+            toks_ = f"raises {e.exc_name}"
+        r1.check(toks_ == want_, f"process_header[{header_!r}]", f"-> bind attribute path {want_}", ph_.loc(), why_fail=repr(toks_))
     rules.append(r1)
 
     # ------------------------------------------------------------------ R2
